@@ -132,6 +132,16 @@ EXTRA4 = {'C01': ' Positions counted from the back in unit().',
  'C17': ' Real oscillating data (complex mode coefficients); large-amplitude trains in right-orthonormal form.',
  'C18': ' Linear-functional user functions on square data (HOSVD variant).',
  'C19': ' Integer count weights (int64 / uint32 / uint64).'}
+EXTRA5 = {'C01': ' In-place conj / transpose on trains with one ndarray object at several positions; norm = 0 in uniform(); calls under a strict floating-point / warnings environment.',
+ 'C02': ' np.matrix / masked-array matrices for rank_tensordot; the diag selection as a one-shot iterable; calls under a strict floating-point / warnings environment.',
+ 'C05': ' Trains with one ndarray object at several positions; exactly graded diagonal tensors (singular-value ratios below machine epsilon, closed-form reference).',
+ 'C06': ' Augmented assignment x *= c as an in-place consumer.',
+ 'C07': " 'No rank bound' written as float('inf') / math.inf / np.float64('inf'); the right-hand side as initial guess (one object in two positions).",
+ 'C08': ' Runs followed over 12 sweep counts.',
+ 'C09': ' 1200-1800 normalised explicit Euler steps with amplification per step; the initial value as initial guess.',
+ 'C11': ' ode.krylov under a strict floating-point / warnings environment.',
+ 'C15': ' User functions of a point that mix a coordinate with an axis-free reduction.',
+ 'C16': ' User functions of a point that mix a coordinate with an axis-free reduction (gram / kernel-based MANDy).'}
 PRIMER = ' Three of four shards start with an unmonitored battery of library calls on float32 / complex64 / complex128 operands (process history).'
 for _k in TABLE:
-    TABLE[_k]['text'] = TABLE[_k]['text'] + EXTRA.get(_k, '') + EXTRA2.get(_k, '') + EXTRA3.get(_k, '') + EXTRA4.get(_k, '') + PRIMER + COMMON
+    TABLE[_k]['text'] = TABLE[_k]['text'] + EXTRA.get(_k, '') + EXTRA2.get(_k, '') + EXTRA3.get(_k, '') + EXTRA4.get(_k, '') + EXTRA5.get(_k, '') + PRIMER + COMMON
